@@ -586,7 +586,8 @@ def loop (inputs outputs : List Pred) : Nat → Names → Prog → List StepTrac
 /-- `UnusedTranslator(prg, inputs, outputs).execute(prg)` with its trace -/
 def executeTrace (prg : Prog) (inputs outputs : List Pred) : Except String (Prog × Names × List StepTrace) := do
   let p0 ← exlineArithmetic prg
-  loop inputs outputs (measure p0 + 1) ⟨UniqueNames.init prg inputs, []⟩ p0 []
+  -- fix (known_findings.json `fixed:`): a new name must not be a declared output predicate either
+  loop inputs outputs (measure p0 + 1) ⟨UniqueNames.init prg (inputs ++ outputs), []⟩ p0 []
 
 /-- `UnusedTranslator(prg, inputs, outputs).execute(prg)` -/
 def execute (prg : Prog) (inputs outputs : List Pred) : Except String Prog := do
